@@ -1,6 +1,220 @@
-(* C01 - placeholder while the proofs are being written *)
-From Verif Require Import Common EnvFsm.
+(* C01 - an environment's state changes only along the documented graph, one transition at a time.
+   Property theorems only; the model is model/EnvFsm.v (+ the tables regenerated from /repo's source
+   on every run: gen/Gen_EnvEvents.v by the translator, gen/Gen_EnvCan.v by enumeration of a real
+   Environment's FSM), the lemmas are proofs/EnvFsm_proofs.v and proofs/EnvFsmConc_proofs.v.
+
+   Vocabulary (definitions in the model unless said otherwise):
+     doc_edge a b      the documented graph, written by hand from the property text
+     doc_op ot s       the documented effect of the five requestable operations
+     req / prog_of     the callers of the state machine as programs over the actions ALookup (manager
+                       map), ATry ev (TryTransition, takes the transition mutex), ATeardown (takes it
+                       too), AForce s (Sm.SetState / setState: no mutex), ARead (CurrentState)
+     oracle            which hooks / task commands / task releases fail (arbitrary)
+     run_seq           sequential histories;  trace_edges: every state write of the trace as (old, new)
+     runs sched c      concurrent semantics: the scheduler picks a thread per step; a locked section
+                       takes three steps (lock + hooks before the state write; the state write;
+                       remaining hooks + unlock); unlocked actions take one step at any time
+     c_edges           every state change of a concurrent run; c_hazard: "a forced state happened while
+                       somebody held the transition mutex, or on a DONE environment"
+     api_req q         q goes through the manager's map (ControlEnvironment, DestroyEnvironment,
+                       TeardownEnvironment, ODC / END_OF_STREAM callers)   [proofs/EnvFsm_proofs.v]
+     req_ok q          a bare TryTransition uses an event name some Transition constructor carries
+     J w               DONE implies unlisted (established by teardown, kept by every action)
+     seq_safe l w      holders of a *Environment (watcher, auto-stop, bare TryTransition) only act while
+                       the environment is listed *)
+From Verif Require Import Common EnvFsmTypes Gen_EnvEvents Gen_EnvCan EnvFsm EnvFsm_proofs EnvFsmConc_proofs.
 Open Scope N_scope.
-Theorem C01_placeholder : doc_edge sSTANDBY sDEPLOYED = true.
-Proof. reflexivity. Qed.
-Print Assumptions C01_placeholder.
+
+(* ---- the tables of the source, as translated on this run ---- *)
+
+(* every edge that an event carried by a constructible Transition can take is documented *)
+Theorem C01_event_table_within_documented_graph :
+  forall ev st d, mem_event ev env_transition_names = true ->
+                  lookup_dst env_events ev st = Some d -> doc_edge st d = true.
+Proof. exact api_edge_documented. Qed.
+Print Assumptions C01_event_table_within_documented_graph.
+
+(* for the five requestable operations the table is exactly the documented effect; MakeTransition
+   hands exactly these five to the state machine (NOOP, GO_ERROR, out-of-enum: nil) *)
+Theorem C01_requestable_ops_are_documented :
+  (forall ot, make_transition ot = doc_op_event ot) /\
+  (forall ot ev st, doc_op_event ot = Some ev -> lookup_dst env_events ev st = doc_op ot st).
+Proof. exact (conj make_transition_documented table_is_documented_ops). Qed.
+Print Assumptions C01_requestable_ops_are_documented.
+
+(* complete tie to the running code: FSM.Can of a real Environment, the outcome of firing every
+   event in every state, MakeTransition and the constructors' event names, on the whole finite domain *)
+Theorem C01_tables_are_the_running_fsm :
+  (forall s e, In (s, e, can env_events s e) env_can_table) /\
+  (forall s e, In (s, e, sec_final s (fsm_section env_events all_bodyful no_faults s e),
+                   sec_err (fsm_section env_events all_bodyful no_faults s e)) env_fire_table) /\
+  (forall ot, assoc_op ot env_make_table = make_transition ot) /\
+  (forall e, In e env_ctor_names <-> In e env_transition_names).
+Proof. exact (conj can_table_agrees (conj fire_table_agrees (conj make_table_agrees ctor_names_agree))). Qed.
+Print Assumptions C01_tables_are_the_running_fsm.
+
+(* EXIT and RECOVER are in the table (RECOVER's edge ERROR -> DEPLOYED is not documented) but no
+   Transition value carries their name, every caller fires only constructible events and forces
+   only ERROR, and the literal arguments of setState / SetState in core/ are ERROR or DONE *)
+Theorem C01_exit_recover_unreachable :
+  mem_event eEXIT env_transition_names = false /\ mem_event eRECOVER env_transition_names = false /\
+  (lookup_dst env_events eRECOVER sERROR = Some sDEPLOYED /\ doc_edge sERROR sDEPLOYED = false) /\
+  (forall q, req_ok q -> prog_ok (prog_of q)) /\
+  (forall s, In s env_forced_literals -> s = sERROR \/ s = sDONE).
+Proof.
+  exact (conj (proj1 exit_recover_not_constructible) (conj (proj2 exit_recover_not_constructible)
+        (conj recover_edge_undocumented (conj prog_of_ok forced_literals_error_or_done)))).
+Qed.
+Print Assumptions C01_exit_recover_unreachable.
+
+(* ---- sequential histories ---- *)
+
+(* every state write of every history of requests, with every combination of failing hooks, task
+   commands and releases, is an edge of the documented graph (or rewrites the same state) *)
+Theorem C01_graph_seq :
+  forall (l : list (req * oracle)),
+    Forall (fun qo => req_ok (fst qo)) l -> forall w : world, J w -> seq_safe l w ->
+    edges_ok (trace_edges (w_st w) (snd (run_seq l w))) = true /\
+    trace_final (w_st w) (snd (run_seq l w)) = w_st (fst (run_seq l w)) /\
+    J (fst (run_seq l w)).
+Proof. exact run_seq_graph. Qed.
+Print Assumptions C01_graph_seq.
+
+(* ... in particular for every history of API requests, without any side condition *)
+Theorem C01_graph_api_histories :
+  forall (l : list (req * oracle)) (w : world),
+    Forall (fun qo => api_req (fst qo)) l -> J w ->
+    edges_ok (trace_edges (w_st w) (snd (run_seq l w))) = true /\
+    trace_final (w_st w) (snd (run_seq l w)) = w_st (fst (run_seq l w)) /\
+    J (fst (run_seq l w)).
+Proof. exact api_seq_graph. Qed.
+Print Assumptions C01_graph_api_histories.
+
+(* DONE is terminal: no API request does anything to an environment that is DONE *)
+Theorem C01_done_terminal_seq :
+  forall (l : list (req * oracle)) (w : world),
+    Forall (fun qo => api_req (fst qo)) l -> J w -> w_st w = sDONE -> run_seq l w = (w, []).
+Proof. exact api_done_terminal. Qed.
+Print Assumptions C01_done_terminal_seq.
+
+(* a request that is not legal in the current state runs none of its hooks, sends no task command
+   at all (only the hooks of the GO_ERROR fallback run), and leaves the environment in ERROR,
+   which is the state reported; the call is answered OK or Aborted *)
+Theorem C01_illegal_inert :
+  forall o ot ev w,
+    w_listed w = true -> make_transition ot = Some ev -> doc_op ot (w_st w) = None ->
+    (forall x, In x (snd (run_req o (QControl ot) w)) -> own_item ev x = false) /\
+    (forall e, ~ In (Body e) (snd (run_req o (QControl ot) w))) /\
+    fst (fst (run_req o (QControl ot) w)) = mkWorld sERROR true /\
+    snd (snd (fst (run_req o (QControl ot) w))) = Some sERROR /\
+    (fst (snd (fst (run_req o (QControl ot) w))) = 0 \/ fst (snd (fst (run_req o (QControl ot) w))) = 3).
+Proof. exact control_illegal_inert. Qed.
+Print Assumptions C01_illegal_inert.
+
+(* any ControlEnvironment whose TryTransition returns an error (cancelled by a hook, failed task
+   command, failing enter / after hook, event not enabled) ends in ERROR, reported as such *)
+Theorem C01_failed_is_error :
+  forall o ot ev w,
+    w_listed w = true -> make_transition ot = Some ev ->
+    sec_err (fsm_section env_events api_bodyful o (w_st w) ev) = true ->
+    fst (fst (run_req o (QControl ot) w)) = mkWorld sERROR true /\
+    snd (snd (fst (run_req o (QControl ot) w))) = Some sERROR /\
+    (fst (snd (fst (run_req o (QControl ot) w))) = 0 \/ fst (snd (fst (run_req o (QControl ot) w))) = 3).
+Proof. exact control_failed_is_error. Qed.
+Print Assumptions C01_failed_is_error.
+
+(* ... and one that returns no error ends in the documented destination, reported as such *)
+Theorem C01_success_is_documented :
+  forall o ot ev w,
+    w_listed w = true -> make_transition ot = Some ev ->
+    sec_err (fsm_section env_events api_bodyful o (w_st w) ev) = false ->
+    exists d, doc_op ot (w_st w) = Some d /\ fst (run_req o (QControl ot) w) = (mkWorld d true, (0, Some d)).
+Proof. exact control_success_documented. Qed.
+Print Assumptions C01_success_is_documented.
+
+(* requests MakeTransition refuses and requests for an unknown environment change nothing *)
+Theorem C01_refused_inert :
+  forall o ot w,
+    w_listed w = false \/ make_transition ot = None ->
+    fst (fst (run_req o (QControl ot) w)) = w /\ snd (run_req o (QControl ot) w) = [] /\
+    (fst (snd (fst (run_req o (QControl ot) w))) = 1 \/ fst (snd (fst (run_req o (QControl ot) w))) = 2).
+Proof. exact control_refused. Qed.
+Print Assumptions C01_refused_inert.
+
+(* ---- concurrent callers, every schedule ---- *)
+
+(* at most one transition or teardown is in progress at any instant (every prefix of every schedule
+   is a schedule), and the transition mutex is held exactly while one is: lock discipline *)
+Theorem C01_one_at_a_time :
+  forall sched w (ths : list (prog * oracle)),
+    (busy_count (runs sched (init_c w ths)) <= 1)%nat /\
+    (c_lock (runs sched (init_c w ths)) = true <-> busy_count (runs sched (init_c w ths)) = 1%nat).
+Proof. exact mutual_exclusion. Qed.
+Print Assumptions C01_one_at_a_time.
+
+(* full statements over concurrent API requests; the faithful model of the unchanged code refutes both *)
+Definition C01_graph_sched_statement : Prop := graph_sched_statement.
+Definition C01_done_terminal_statement : Prop := done_terminal_statement.
+
+(* C01-b: ControlEnvironment forces ERROR without the transition mutex; landing inside another
+   caller's CONFIGURE it is overwritten: DEPLOYED -> ERROR -> CONFIGURED (witness wit_force_race) *)
+Theorem C01_graph_sched_refuted : ~ C01_graph_sched_statement.
+Proof. exact graph_sched_refuted. Qed.
+Print Assumptions C01_graph_sched_refuted.
+
+(* C01-a: a ControlEnvironment that looked the environment up before a teardown unlisted it
+   executes afterwards and forces DONE -> ERROR (witness wit_stale) *)
+Theorem C01_done_terminal_refuted : ~ C01_done_terminal_statement.
+Proof. exact done_terminal_refuted. Qed.
+Print Assumptions C01_done_terminal_refuted.
+
+(* both hold for every schedule of every set of requests under the exact missing hypothesis: no
+   forced state lands inside somebody's locked section or on a DONE environment *)
+Theorem C01_graph_sched_partial :
+  forall sched (reqs : list (req * oracle)) w,
+    Forall (fun qo => req_ok (fst qo)) reqs -> J w ->
+    c_hazard (runs sched (init_c w (req_threads reqs))) = false ->
+    edges_ok (c_edges (runs sched (init_c w (req_threads reqs)))) = true /\
+    chained (w_st w) (c_edges (runs sched (init_c w (req_threads reqs))))
+            (w_st (c_w (runs sched (init_c w (req_threads reqs))))) /\
+    (forall e, In e (c_edges (runs sched (init_c w (req_threads reqs)))) -> fst e <> sDONE) /\
+    J (c_w (runs sched (init_c w (req_threads reqs)))).
+Proof. exact graph_sched_reqs. Qed.
+Print Assumptions C01_graph_sched_partial.
+
+(* serialisation: under the same hypothesis every schedule is an atomic execution (one whole
+   action - a locked section is one action - at a time, each seeing the world left by the previous
+   one) of the same threads, in the order in which the sections commit *)
+Theorem C01_serial_refines_seq_partial :
+  forall sched (reqs : list (req * oracle)) w,
+    c_hazard (runs sched (init_c w (req_threads reqs))) = false ->
+    exists order, subseq order sched /\
+      abs (runs sched (init_c w (req_threads reqs))) = run_atomic order (w, req_threads reqs).
+Proof. exact serial_refinement_reqs. Qed.
+Print Assumptions C01_serial_refines_seq_partial.
+
+(* ... and the atomic execution of one request alone is the sequential semantics of C01_graph_seq *)
+Theorem C01_atomic_single_is_sequential :
+  forall o p w, exists n c s,
+    run_atomic (repeat 0%nat n) (w, [(p, o)]) = (fst (fst (run_prog env_events api_bodyful o p w)), [(Ret c s, o)]) /\
+    snd (fst (run_prog env_events api_bodyful o p w)) = (c, s).
+Proof. exact atomic_single. Qed.
+Print Assumptions C01_atomic_single_is_sequential.
+
+(* the hypotheses are satisfiable by non-trivial runs: a history with a failing task command, an
+   illegal request and a teardown; a concurrent run without hazard in which a caller waits *)
+Example C01_nonvacuous :
+  let l := [(QControl oDEPLOY, no_faults); (QControl oCONFIGURE, mkOracle [] [eCONFIGURE] false false);
+            (QControl oSTART_ACTIVITY, no_faults); (QDestroy false false false, no_faults);
+            (QControl oDEPLOY, no_faults)] in
+  let w := mkWorld sSTANDBY true in
+  Forall (fun qo => api_req (fst qo)) l /\ J w /\
+  trace_edges (w_st w) (snd (run_seq l w)) = [(sSTANDBY, sDEPLOYED); (sDEPLOYED, sERROR); (sERROR, sDONE)] /\
+  let c := runs [0; 1; 0; 0; 1; 0; 0; 1; 1; 1; 1; 1; 1; 1; 1]%nat
+                (init_c w (req_threads [(QControl oDEPLOY, no_faults); (QControl oCONFIGURE, no_faults)])) in
+  c_hazard c = false /\ c_edges c = [(sDEPLOYED, sCONFIGURED); (sSTANDBY, sDEPLOYED)] /\
+  forallb th_done (c_threads c) = true.
+Proof.
+  cbv zeta. split; [repeat constructor|]. split; [intro E; discriminate E|].
+  split; [vm_compute; reflexivity|]. vm_compute. repeat split; reflexivity.
+Qed.
